@@ -419,6 +419,66 @@ var c05Mutations = []c05Mutation{
 			c.setPost(docString(d))
 		}
 	}},
+	// an attacker's signature whose KeyInfo holds no certificate at all (a key name, a key value, an empty X509Data, a
+	// KeyInfo in another namespace): nothing in it says whose key it is, and it is not the registered one
+	{"attacker_signature_keyinfo_without_certificate", func(c *c05Case) {
+		c.Binding = "post"
+		sx := c.signedPost(c.Node, keys.Get("attacker"), spsim.XMLSignOpts{Alg: c.Alg})
+		d := parseDoc(sx)
+		ki := d.Root().FindElement("./Signature/KeyInfo")
+		if ki != nil {
+			for _, ch := range ki.ChildElements() {
+				ki.RemoveChild(ch)
+			}
+			switch c.rng.Intn(5) {
+			case 0:
+				ki.CreateElement("ds:KeyName").SetText("sp-signing-key")
+				c.Labels = append(c.Labels, "key_name_only")
+			case 1:
+				ki.CreateElement("ds:X509Data")
+				c.Labels = append(c.Labels, "empty_x509data")
+			case 2:
+				kv := ki.CreateElement("ds:KeyValue").CreateElement("ds:RSAKeyValue")
+				kv.CreateElement("ds:Modulus").SetText("AQAB")
+				kv.CreateElement("ds:Exponent").SetText("AQAB")
+				c.Labels = append(c.Labels, "key_value_only")
+			case 3:
+				ki.Space, ki.Tag = "", "KeyInfo"
+				ki.CreateAttr("xmlns", "urn:example:foreign")
+				ki.CreateElement("X509Data").CreateElement("X509Certificate").SetText(keys.Get("sp0").B64())
+				c.Labels = append(c.Labels, "keyinfo_in_a_foreign_namespace")
+			default:
+				x := ki.CreateElement("ds:X509Data")
+				x.CreateElement("ds:X509SubjectName").SetText("CN=sp0.example")
+				c.Labels = append(c.Labels, "subject_name_only")
+			}
+		}
+		c.setPost(docString(d))
+	}},
+	// a message of the redirect binding (everything in the URL query) asked for with POST and an empty body: the
+	// Signature parameter it bears is verified like that of any other redirect message
+	{"redirect_message_requested_with_post", func(c *c05Case) {
+		m := c.signedRedirect(c.Node, c.keyA(), c.Relay, c.HasRelay, c.Alg)
+		switch c.rng.Intn(4) {
+		case 0: // as signed
+			c.Labels = append(c.Labels, "as_signed")
+		case 1:
+			m.RelayState, m.HasRelay = "https://evil-"+randHex(c.rng, 3)+".example/landing", true
+			c.Labels = append(c.Labels, "relaystate_swapped")
+		case 2:
+			m.Signature = spsim.B64([]byte("made up signature value " + randHex(c.rng, 8)))
+			c.Labels = append(c.Labels, "made_up_signature")
+		default:
+			n, what := c.editedNode()
+			c.Labels = append(c.Labels, what)
+			m.Value = spsim.DeflateB64(c.unsignedXML(n))
+		}
+		if c.rng.Intn(2) == 0 {
+			m.Encoding = spsim.EncDeflate
+		}
+		c.Binding = "redirect"
+		c.Method, c.Query, c.Body = "POST", m.RawQuery(), ""
+	}},
 	{"signed_by_other_registered_sp", func(c *c05Case) {
 		// SP B (registered, own key sp1) signs a request that names SP A as Issuer
 		kb := keys.Get("sp1")
